@@ -137,14 +137,27 @@ func prefix32(b byte) [32]byte {
 	return p
 }
 
-// c02def: logs of the target contract with topic 0 == topicHit and first data
-// word (a uint256) <= 1000.
+// c02payload is the dynamic value the trigger definition asks for.
+var c02payload = bytes.Repeat([]byte{0x5a}, 32)
+
+// c02data builds log data: first word = v, second word = offset of a dynamic
+// value whose length word says declared and of which present bytes follow.
+func c02data(v *big.Int, declared int, present []byte) []byte {
+	d := append([]byte{}, common.BigToHash(v).Bytes()...)
+	d = append(d, common.BigToHash(big.NewInt(0x40)).Bytes()...)
+	d = append(d, common.BigToHash(big.NewInt(int64(declared))).Bytes()...)
+	return append(d, present...)
+}
+
+// c02def: logs of the target contract with topic 0 == topicHit, first data
+// word (a uint256) <= 1000 and second argument (a dynamic value) == c02payload.
 func c02def() []byte {
 	d := shutterservice.EventTriggerDefinition{
 		Contract: syncx.TargetAddr,
 		LogPredicates: []shutterservice.LogPredicate{
 			{LogValueRef: shutterservice.LogValueRef{Offset: 0}, ValuePredicate: shutterservice.ValuePredicate{Op: shutterservice.BytesEq, ByteArgs: [][]byte{topicHit.Bytes()}}},
 			{LogValueRef: shutterservice.LogValueRef{Offset: 4}, ValuePredicate: shutterservice.ValuePredicate{Op: shutterservice.UintLte, IntArgs: []*big.Int{big.NewInt(1000)}}},
+			{LogValueRef: shutterservice.LogValueRef{Offset: 5, Dynamic: true}, ValuePredicate: shutterservice.ValuePredicate{Op: shutterservice.BytesEq, ByteArgs: [][]byte{c02payload}}},
 		},
 	}
 	return d.MarshalBytes()
@@ -422,16 +435,24 @@ func (h *c02h) apply(s *c02state, o c02op, st *report.Stats) (ns *c02state, viol
 		logs = append(logs, fakechain.EventTriggerRegistered(syncx.TriggerRegistryAddr, c02Set, prefix32(0xe6), sender, c02def(), num+1))
 		m.Trigs = append(m.Trigs, c02trig{0xe6, c02Set, num + 1, num, c02def()})
 	case "hit":
-		logs = append(logs, fakechain.LogSpec{Address: syncx.TargetAddr, Topics: []common.Hash{topicHit}, Data: common.BigToHash(big.NewInt(1)).Bytes()})
+		logs = append(logs, fakechain.LogSpec{Address: syncx.TargetAddr, Topics: []common.Hash{topicHit}, Data: c02data(big.NewInt(1), 32, c02payload)})
 		m.HitLogs = append(m.HitLogs, num)
 	case "miss":
-		logs = append(logs, fakechain.LogSpec{Address: syncx.TargetAddr, Topics: []common.Hash{topicMiss}, Data: common.BigToHash(big.NewInt(1)).Bytes()})
+		logs = append(logs, fakechain.LogSpec{Address: syncx.TargetAddr, Topics: []common.Hash{topicMiss}, Data: c02data(big.NewInt(1), 32, c02payload)})
 	case "missAbove":
 		// right topic, value just above the bound
-		logs = append(logs, fakechain.LogSpec{Address: syncx.TargetAddr, Topics: []common.Hash{topicHit}, Data: common.BigToHash(big.NewInt(1001)).Bytes()})
+		logs = append(logs, fakechain.LogSpec{Address: syncx.TargetAddr, Topics: []common.Hash{topicHit}, Data: c02data(big.NewInt(1001), 32, c02payload)})
 	case "missHigh":
 		// right topic, a value whose low 64 bits are within the bound but which is >= 2^64
-		logs = append(logs, fakechain.LogSpec{Address: syncx.TargetAddr, Topics: []common.Hash{topicHit}, Data: common.BigToHash(new(big.Int).Add(new(big.Int).Lsh(big.NewInt(1), 64), big.NewInt(1))).Bytes()})
+		logs = append(logs, fakechain.LogSpec{Address: syncx.TargetAddr, Topics: []common.Hash{topicHit}, Data: c02data(new(big.Int).Add(new(big.Int).Lsh(big.NewInt(1), 64), big.NewInt(1)), 32, c02payload)})
+	case "missTrunc":
+		// right topic and first word; the dynamic value is declared 40 bytes long but the
+		// data ends after 32 of them (equal to the payload): the value is those bytes
+		// padded with zeros on the right, which is not the payload
+		logs = append(logs, fakechain.LogSpec{Address: syncx.TargetAddr, Topics: []common.Hash{topicHit}, Data: c02data(big.NewInt(1), 40, c02payload)})
+	case "missDyn":
+		// right topic and first word, another dynamic value
+		logs = append(logs, fakechain.LogSpec{Address: syncx.TargetAddr, Topics: []common.Hash{topicHit}, Data: c02data(big.NewInt(1), 32, bytes.Repeat([]byte{0x5b}, 32))})
 	}
 	for _, x := range s.m.Regs {
 		for _, y := range m.Regs[len(s.m.Regs):] {
@@ -541,7 +562,7 @@ type c02Replay struct {
 func c02alphabet() []c02op {
 	var ops []c02op
 	for _, dt := range []int64{5, 0, -3} {
-		for _, c := range []string{"none", "regA", "regB", "regE", "regMany", "regOther", "trig", "hit", "miss", "missAbove", "missHigh"} {
+		for _, c := range []string{"none", "regA", "regB", "regE", "regMany", "regOther", "trig", "hit", "miss", "missAbove", "missHigh", "missTrunc", "missDyn"} {
 			ops = append(ops, c02op{Kind: "block", Dt: dt, Content: c})
 		}
 	}
@@ -574,7 +595,7 @@ func c02seeds() [][]c02op {
 func c02() *report.Check {
 	return &report.Check{
 		Level: "model_checking",
-		Rule:  "explicit-state BFS from five scripted seed states over {next block with timestamp delta in {+5, 0, -3} and content in {nothing, registration A (release time between blocks), registration B (release time equal to a block time), registration E (release time already past, matters below the activation block), registration for a set the keyper is not in, registrations with release times 2^63 and 2^64-1, event-trigger registration (topic and value bound) expiring three blocks later, a second registration with the same definition expiring one block later, blocks the keyper does not process (so that the next one syncs a range of several blocks), matching log, logs missing on the topic / just above the bound / above 2^64 with low bits inside the bound}, eon start / success / failure, key release for A / B / the trigger identity, restart}; every block processed by the real processNewBlock with the real syncers on a fake chain, every emitted trigger consumed by the real KeyShareHandler through the service middleware; monitor from the statement on every identity of every trigger and of every published shares message. Classes = kinds of step and numbers of triggers / shares",
+		Rule:  "explicit-state BFS from five scripted seed states over {next block with timestamp delta in {+5, 0, -3} and content in {nothing, registration A (release time between blocks), registration B (release time equal to a block time), registration E (release time already past, matters below the activation block), registration for a set the keyper is not in, registrations with release times 2^63 and 2^64-1, event-trigger registration (topic, value bound and a dynamic value; near-miss logs incl. a dynamic value truncated by the end of the data) expiring three blocks later, a second registration with the same definition expiring one block later, blocks the keyper does not process (so that the next one syncs a range of several blocks), matching log, logs missing on the topic / just above the bound / above 2^64 with low bits inside the bound}, eon start / success / failure, key release for A / B / the trigger identity, restart}; every block processed by the real processNewBlock with the real syncers on a fake chain, every emitted trigger consumed by the real KeyShareHandler through the service middleware; monitor from the statement on every identity of every trigger and of every published shares message. Classes = kinds of step and numbers of triggers / shares",
 		Assumptions: []string{
 			"the identity of a registration is looked up in the keyper's own event tables (their correctness is C15/C16's subject)",
 			"safety only: that an eligible identity is eventually triggered is not demanded",
